@@ -419,6 +419,124 @@ func badResponse(method string, u *UserCfg, ch *wamp.Challenge) string {
 	return "x"
 }
 
+// altVariants: responses a sloppy verifier might accept — made with the right
+// secret over something other than this run's challenge, or over this run's
+// challenge with a key anybody can compute.
+var altVariants = map[string][]string{
+	"ticket":     {"lit:empty", "lit:authid", "lit:prefix", "lit:upper", "lit:twice"},
+	"wampcra":    {"msg:authid", "msg:empty", "msg:authrole", "msg:provider", "msg:method", "msg:session", "msg:nonce", "msg:nosession", "msg:notimestamp", "key:empty", "key:authid", "key:question", "raw:unencoded"},
+	"cryptosign": {"msg:zero", "msg:reversed", "msg:hexascii", "msg:flipped", "sig:swapped", "sig:upperhex", "key:zero"},
+}
+
+func altResponse(method, alt string, u *UserCfg, ch *wamp.Challenge, claimed string) string {
+	switch method {
+	case "ticket":
+		t := ""
+		if u != nil && u.Ticket != nil {
+			t = *u.Ticket
+		}
+		switch alt {
+		case "lit:empty":
+			return ""
+		case "lit:authid":
+			return claimed
+		case "lit:prefix":
+			if len(t) > 0 {
+				return t[:len(t)-1]
+			}
+			return "x"
+		case "lit:upper":
+			return strings.ToUpper(t)
+		default:
+			return t + t
+		}
+	case "wampcra":
+		secret := "wrong-secret"
+		if u != nil && u.CRASecret != nil {
+			secret = *u.CRASecret
+		}
+		chal, _ := ch.Extra["challenge"].(string)
+		over := func(msg string) string {
+			e := wamp.Dict{}
+			for k, v := range ch.Extra {
+				e[k] = v
+			}
+			e["challenge"] = msg
+			return craRespond(secret, e)
+		}
+		mm := craChalRe.FindStringSubmatch(chal)
+		part := func(i int) string {
+			if mm != nil {
+				return mm[i]
+			}
+			return ""
+		}
+		switch alt {
+		case "msg:authid":
+			return over(claimed)
+		case "msg:empty":
+			return over("")
+		case "msg:authrole":
+			return over(part(5))
+		case "msg:provider":
+			return over(part(2))
+		case "msg:method":
+			return over("wampcra")
+		case "msg:session":
+			return over(part(6))
+		case "msg:nonce":
+			return over(part(1))
+		case "msg:nosession":
+			return over(regexp.MustCompile(`"session":[0-9]+`).ReplaceAllString(chal, `"session":0`))
+		case "msg:notimestamp":
+			return over(regexp.MustCompile(`"timestamp":"[^"]*"`).ReplaceAllString(chal, `"timestamp":""`))
+		case "key:empty":
+			return hmacB64(nil, chal)
+		case "key:authid":
+			return hmacB64([]byte(claimed), chal)
+		case "key:question":
+			return hmacB64([]byte("?"), chal)
+		default: // the raw HMAC bytes, not base64
+			s, _ := base64.StdEncoding.DecodeString(craRespond(secret, ch.Extra))
+			return string(s)
+		}
+	case "cryptosign":
+		seed := otherSeed
+		if u != nil && u.CSSeed != nil {
+			seed = *u.CSSeed
+		}
+		chHex, _ := ch.Extra["challenge"].(string)
+		c, _ := hex.DecodeString(chHex)
+		if len(c) != 32 {
+			c = make([]byte, 32)
+		}
+		switch alt {
+		case "msg:zero":
+			return csSign(seed, make([]byte, 32))
+		case "msg:reversed":
+			r := make([]byte, 32)
+			for i := range c {
+				r[31-i] = c[i]
+			}
+			return csSign(seed, r)
+		case "msg:hexascii":
+			return csSign(seed, []byte(chHex)[:32])
+		case "msg:flipped":
+			f := append([]byte{}, c...)
+			f[31] ^= 1
+			return csSign(seed, f)
+		case "sig:swapped":
+			sm, _ := hex.DecodeString(csSign(seed, c))
+			return hex.EncodeToString(append(append([]byte{}, sm[64:]...), sm[:64]...))
+		case "sig:upperhex":
+			return strings.ToUpper(csSign(seed, c)) // a correct response in upper-case hex (accepted by hex.DecodeString)
+		default: // signed by the key pair whose seed is all zero
+			return csSign(strings.Repeat("00", 32), c)
+		}
+	}
+	return "x"
+}
+
 func wrongTypeMsg(code int) wamp.Message {
 	switch wamp.MessageType(code) {
 	case wamp.HELLO:
@@ -820,6 +938,15 @@ func runScenario(sc *Scenario) *Outcome {
 					} else {
 						sig = badResponse(method, u, x)
 					}
+				case "alt":
+					alt := sc.Resp.Alt
+					if strings.HasPrefix(alt, "any:") {
+						if vs := altVariants[method]; len(vs) > 0 {
+							k, _ := strconv.Atoi(alt[4:])
+							alt = vs[k%len(vs)]
+						}
+					}
+					sig = altResponse(method, alt, u, x, claimed)
 				case "garbage", "literal":
 					if sc.Resp.Literal != nil {
 						sig = *sc.Resp.Literal
